@@ -18,3 +18,10 @@ pub use self::hybrid::execute_hybrid_protocol;
 use crate::{error::Error, query::ProtocolResult};
 
 pub(super) type QueryResult = Result<Box<dyn ProtocolResult>, Error>;
+
+/// Verification harness (child module: reaches the private query runners). `--cfg ipa_verif` only.
+#[cfg(all(test, ipa_verif))]
+#[allow(warnings, clippy::all, clippy::pedantic)]
+pub(crate) mod verif_h6 {
+    include!(concat!(env!("IPA_VERIF_DIR"), "/harness/h6_runner.rs"));
+}
